@@ -2,8 +2,8 @@
 EXTENDS Builtins, Json
 VARIABLE done
 Locales == {<<"de", "DE">>, <<"de", "AT">>, <<"de">>, <<"fr", "CA">>, <<"xx", "YY">>, <<"en", "US">>, <<"en", "GB">>, <<"en">>, <<"zh", "Hans", "CN">>, <<>>}
-TableNames == {<<"de", "DE">>, <<"de">>, <<"en", "US">>, <<"en">>, <<"fr">>, <<"zh", "Hans">>}
-Defaults == {<<"en", "US">>, <<"de", "DE">>, <<"xx">>}
+TableNames == {<<"de", "DE">>, <<"de">>, <<"en", "US">>, <<"en">>, <<"fr">>, <<"zh", "Hans">>, <<"zh">>}
+Defaults == {<<"en", "US">>, <<"de", "DE">>, <<"xx">>, <<"zh", "Hans", "CN">>}
 TableSets == SUBSET TableNames
 Keys == {"k1", "k2"}
 \* every table defines k1; k2 only in tables whose first part is "de" (a key missing in the chosen table)
